@@ -169,7 +169,9 @@ impl Target {
         // environment: vary it from target to target, so that every check meets main-thread stack
         // pointers at all distances from a page boundary (not only the one this machine's
         // environment happens to produce)
-        {
+        // (an explicitly EMPTY environment stays empty: `/proc/<pid>/environ` of such a process -
+        // `env -i`, execve with an empty envp - has length 0)
+        if !matches!(&opts.env, Some(e) if e.is_empty()) {
             static PAD: std::sync::atomic::AtomicUsize = std::sync::atomic::AtomicUsize::new(0);
             let k = PAD.fetch_add(1, std::sync::atomic::Ordering::Relaxed);
             let base: usize = std::env::var("VH_STACK_PAD_BASE").ok().and_then(|s| s.parse().ok()).unwrap_or(0);
